@@ -57,6 +57,12 @@ def gen_ballot(rng, n, pool):
     b["sperm"] = rng.randint(0, 10 ** 6)     # insertion order of the scores dict
     b["id"] = rng.choice([None, None, "x1", "x2"])
     b["vs"] = rng.choice([None, None, ["v1"], ["v1", "v2"]])
+    if pool and b["r"] and rng.random() < 0.12:
+        # the ranking of an earlier ballot with other scores and another voter set: a different content
+        o = rng.choice([x for x in pool if x["r"]] or [b])
+        b["r"] = [list(s0) for s0 in o["r"]]
+        b["s"] = [[rng.randrange(n), rat(gen.gen_score(rng))]]
+        b["vs"] = [["v3"], ["v1"], None][rng.randrange(3)] if o.get("vs") != ["v3"] else ["v4"]
     return b
 
 
@@ -148,6 +154,21 @@ def run_case(vk, case):
     ballots = [mk(vk, nm, b) for b in bs]
     mballs = [mball(b) for b in bs]
     want = condensed_map(mballs)
+    # ballot values compare by ALL their fields (ranking, weight, id, voter set, scores), in both operand orders, and
+    # never equal something that is not a ballot
+    for i in range(min(3, len(bs))):
+        for j in range(i, min(4, len(bs))):
+            x, y = bs[i], bs[j]
+            same = (x["r"] == y["r"] and sorted(map(tuple, x["s"])) == sorted(map(tuple, y["s"]))
+                    and exact_weight(x["wpy"]) == exact_weight(y["wpy"]) and x.get("id") == y.get("id")
+                    and sorted(x.get("vs") or []) == sorted(y.get("vs") or []) and (x.get("vs") is None) == (y.get("vs") is None))
+            got = run_impl(lambda: (ballots[i] == ballots[j], ballots[j] == ballots[i]))
+            if got[0] != "ok" or got[1] != (same, same):
+                fail("ballot-equality", f"ballots {i},{j}: == gives {got[1] if got[0] == 'ok' else got[2]}, fields equal: {same}", "ballot-eq")
+    if ballots:
+        got = run_impl(lambda: (ballots[0] == "ballot", ballots[0] == None, ballots[0] != 0))     # noqa: E711
+        if got[0] != "ok" or got[1] != (False, False, True):
+            fail("ballot-equality", f"comparison with a non-ballot: {got}", "ballot-eq")
     if op == "condense":
         p = vk.PreferenceProfile(ballots=tuple(ballots))
         out = run_impl(lambda: p.condense_ballots())
@@ -244,6 +265,44 @@ def run_case(vk, case):
         cast = sorted({c for b in pos for s in b["r"] for c in s} | {c for b in pos for c, _ in b["s"]})
         if p.num_ballots != len(bs) or p.total_ballot_wt != tot or sorted(names.idx[c] for c in p.candidates_cast) != cast:
             fail("derived-fields", f"num {p.num_ballots} total {p.total_ballot_wt} cast {p.candidates_cast}", "derived")
+        # the three dictionary views give every ballot content / ranking / score table its summed weight, or its share of
+        # the total when standardised
+        def rk(b):
+            return tuple(tuple(sorted(s0)) for s0 in b["r"])
+        def sk(b):
+            return tuple(sorted((c, Fraction(v)) for c, v in b["s"]))
+        for std in (False, True):
+            if std and tot == 0:
+                continue
+            scale = tot if std else Fraction(1)
+            want_b, want_r, want_s = {}, {}, {}
+            for b in bs:
+                w = exact_weight(b["wpy"]) / scale
+                want_b[(rk(b), sk(b))] = want_b.get((rk(b), sk(b)), Fraction(0)) + w
+                want_r[rk(b)] = want_r.get(rk(b), Fraction(0)) + w
+                want_s[sk(b)] = want_s.get(sk(b), Fraction(0)) + w
+            views = run_impl(lambda: (p.to_ballot_dict(standardize=std), p.to_ranking_dict(standardize=std),
+                                      p.to_scores_dict(standardize=std)))
+            if views[0] != "ok":
+                fail("dict-views", f"standardize={std}: {views[2]}", "derived")
+                continue
+            bd, rd, sd = views[1]
+            def nrk(r):
+                return tuple(tuple(sorted(names.idx[c] for c in s0)) for s0 in (r or ()) if len(s0) > 0)
+            def nsk(sc):
+                return tuple(sorted((names.idx[c], Fraction(v)) for c, v in (sc.items() if hasattr(sc, "items") else sc or ())))
+            got_b = {}
+            for k0, v in bd.items():
+                got_b[(nrk(k0.ranking), nsk(k0.scores or {}))] = got_b.get((nrk(k0.ranking), nsk(k0.scores or {})), Fraction(0)) + Fraction(v)
+            got_r = {}
+            for k0, v in rd.items():
+                got_r[nrk(k0)] = got_r.get(nrk(k0), Fraction(0)) + Fraction(v)
+            got_s = {}
+            for k0, v in sd.items():
+                got_s[nsk(k0)] = got_s.get(nsk(k0), Fraction(0)) + Fraction(v)
+            for nm0, g, w0 in (("to_ballot_dict", got_b, want_b), ("to_ranking_dict", got_r, want_r), ("to_scores_dict", got_s, want_s)):
+                if {k0: v for k0, v in g.items() if v != 0} != {k0: v for k0, v in w0.items() if v != 0}:
+                    fail("dict-views", f"{nm0}(standardize={std}): {str(g)[:200]} vs {str(w0)[:200]}", "derived")
         exp = {"cands": sorted(names.idx[c] for c in p.candidates), "cast": sorted(names.idx[c] for c in p.candidates_cast),
                "num": p.num_ballots, "total": rat(p.total_ballot_wt)}
         return {"req": {"op": "mk_profile", "ballots": mballs, "cands": []}, "expect": {"ok": exp},
